@@ -16,7 +16,7 @@ from vlib.core import Outcome, line
 
 DTYPES = ['int8', 'int32', 'int64', 'uint8', 'float16', 'float32', 'float64']
 SHAPES = [[], [3], [2, 0], [2, 2]]
-PRE = ['cast', 'affine', 'addfeat']
+PRE = ['cast', 'affine', 'addfeat', 'inplace_arr']
 UNBOUNDED_CAP = 50
 
 
@@ -45,7 +45,7 @@ class watchdog:
 
 
 def make_raw(N, feats):
-  raw = {'id': np.arange(N, dtype=np.int32)}
+  raw = {'id': np.arange(N, dtype=np.int32), 'w': np.zeros(N, dtype=np.float32)}
   for name, dt, shape in feats:
     size = int(np.prod([N] + list(shape)))
     raw[name] = ((np.arange(size).reshape([N] + list(shape)) % 7) + 1).astype(dt)
@@ -59,6 +59,13 @@ def pre_fn(name):
     return lambda x: {**x, 'aff': x['id'] * 3 + 1}
   if name == 'addfeat':
     return lambda x: {**x, 'sq': x['id'].astype(np.float32) ** 2}
+  if name == 'inplace_arr':
+    # modifies a feature ARRAY of the batch in place (e.g. `x['pixels'] -= mean`): legal, because a batch
+    # is a copy of the dataset's rows; the dataset itself must not change
+    def f(x):
+      x['w'] += 1
+      return x
+    return f
   raise ValueError(name)
 
 
@@ -221,7 +228,7 @@ class C04(core.Property):
     snap = {k: v.copy() for k, v in raw.items()}
     pre = cds.BatchPreprocessor([pre_fn(p) for p in c['pre']])
     ds = cds.ClientDataset(raw, pre)
-    expect_all = pre(raw)
+    expect_all = pre({k: v.copy() for k, v in raw.items()})
     kw = dict(batch_size=bs, num_epochs=E, num_steps=S, drop_remainder=drop, seed=seed, skip_shuffle=skip)
     expect = doc_count(N, bs, E, S, drop)
     limit = UNBOUNDED_CAP if expect is None else expect + 3
